@@ -102,7 +102,8 @@ def main():
     n1 = sum(r.get("events", 0) for r in recs)
     events += n1
     distinct += sum(r.get("distinct_signatures", 0) for r in recs)
-    drivers["gen_monitor(hostile)"] = {"configurations": len(recs), "events": n1}
+    drivers["gen_monitor(hostile)"] = {"configurations": len(recs), "events": n1, "divdif_calls_on_heap_copies_of_their_tables": genmon.TABLEWRAP[0]}
+    chk.require(genmon.TABLEWRAP[0] > 1000, "the table interposer saw only %d divdif calls" % genmon.TABLEWRAP[0])
     chk.require(len(recs) >= 0.9 * len(lines), "gen_monitor reported %d of %d configurations" % (len(recs), len(lines)))
 
     # ---- (2) event-reuse histories (C07 driver)
@@ -180,7 +181,9 @@ def main():
         "rule": "the generation drivers are re-run in the ASan+UBSan build (-fno-sanitize-recover=all, -D_GLIBCXX_ASSERTIONS, "
                 "-D_GLIBCXX_SANITIZE_VECTOR, quarantine 256 MB): hostile-tape monitor over all background names and sampled double-beta "
                 "configurations incl. windows reaching the end of the 1-keV tables, event-reuse histories, post-generation operations, "
-                "gA sampler; every aborted process is one report keyed kind|frame0|frame1; distinct = distinct (configuration, branch signature)",
+                "gA sampler; requests that must be refused (windows above the range, beyond the tables, inverted, one-sided); a pass with every debug/trace switch on; "
+                "decay0_divdif is interposed (harness/tablewrap.h) so that its two look-up tables are exact-size heap copies - an index of -1 or N "
+                "into BJ69::plog69 lands in padding ASan does not poison; every aborted process is one report keyed kind|frame0|frame1; distinct = distinct (configuration, branch signature)",
         "samples": [{"driver": k, **v} for k, v in drivers.items()],
         "sanitizer_selftest": "use-after-free, in-capacity vector index and signed overflow canaries all fired" if active else "FAILED",
         "drivers": drivers,
